@@ -218,6 +218,7 @@ def main(argv=None):
     witness_info = []
     # -- 1. witnesses of known / fixed findings ------------------------------------------
     try:
+        known.strict(True)
         for ent in load_known(pid):
             wpath = ent.get("witness")
             if not wpath:
@@ -247,6 +248,9 @@ def main(argv=None):
     except Exception:  # noqa: BLE001
         traceback.print_exc()
         return 2
+    finally:
+        known.strict(False)
+    known.set_disabled(disabled_triggers)
 
     # -- 2. search ------------------------------------------------------------------------
     budget = mod.budget(tier)
